@@ -5,7 +5,7 @@
 (* FALSE on the event; EventDrift(ev, pre) the L2 (implementation-shaped)   *)
 (* disagreements.                                                           *)
 (***************************************************************************)
-EXTENDS FermiImpl
+EXTENDS FermiImpl, ReshapeImpl
 
 Has(r, f) == f \in DOMAIN r
 Labels(x) == IF IsFermi(x) THEN x.oddpos ELSE <<>>
@@ -1200,8 +1200,18 @@ EventFails(ev, pre) ==
   \cup DtypeFails(ev, pre)
   \cup OpFails(ev, pre)
 
+\* the real axis-matching routine against its transcription (ReshapeImpl): same plan, raises in the same cases
+ReshapeArgsDrift(ev) ==
+  LET t == ev.regs.tab
+      m == CalcReshapeArgs(t.shape, t.newshape, t.subsizes)
+  IN {"L2+reshape_args"}
+     \cup F(m.ok = (ev.outcome = "ok"), "L2.reshape_args.outcome")
+     \cup (IF m.ok /\ ev.outcome = "ok"
+           THEN F(t.plan.unfuse = m.unfuse /\ t.plan.fuse = m.fuse /\ t.plan.expand = m.expand, "L2.reshape_args.plan")
+           ELSE {})
 EventDrift(ev, pre) ==
   IF ev.op \in {"group_pairs", "group_assoc", "sectors"} THEN TableDrift(ev)
+  ELSE IF ev.op = "reshape_args" THEN ReshapeArgsDrift(ev)
   ELSE IF ev.op = "threads_run" THEN ThreadsDrift(ev)
   ELSE IF ev.op = "init" /\ Has(ev.args, "descs")
   THEN \* programs exported from Machine.tla: the real inputs must be the arrays the model started from
